@@ -805,6 +805,6 @@ func checkC06(p *core.Program, r *core.Report) {
 	r.Require("reevaluate_call_sites", n, 2)
 
 	// ------------------------------------------------------------------ R4 the membership predicate
-	r.Rule("R4", "membership is decided by the contact-query evaluator, so its comparison tables and its any/all reduction over multi-valued properties (URNs) are obligations here too (imported from C15/R1 R2)")
-	importObligations(p, r, "C15", map[string]bool{"R1": true, "R2": true}, "R4", "the query evaluator that decides group membership is wrong here, so a contact is kept in (or out of) a group its attributes do not match")
+	r.Rule("R4", "membership is decided by the contact-query evaluator, so its comparison tables and its any/all reduction over multi-valued properties (URNs) are obligations here too and the values of the contact it is handed, are obligations here too (imported from C15/R1 R2 R3)")
+	importObligations(p, r, "C15", map[string]bool{"R1": true, "R2": true, "R3": true}, "R4", "the query evaluator that decides group membership is wrong here, so a contact is kept in (or out of) a group its attributes do not match")
 }
